@@ -442,12 +442,12 @@ def r8_shared_reader_counts(ctx):
         yield o
 
 RULES = [
-    Rule('C05.R1', 'verdict True only through valid and error-count-zero edges; other exits False', r1_verdict, floor=5),
-    Rule('C05.R2', 'sibling "has errors" deciders consult every stored evidence field', r2_evidence, floor=8),
-    Rule('C05.R3', 'reader error tags/arity = error-handler dispatch', r3_tags, floor=5),
-    Rule('C05.R4', 'acknowledgement code tuples vs the 997/999 maps and the codes actually reported', r4_code_tables, floor=10),
-    Rule('C05.R5', 'every error-tree node visited; both visitors implement every hook', r5_visitors, floor=12),
-    Rule('C05.R6', 'AK9 totals wiring and 997/999 sibling agreement', r6_totals, floor=12),
-    Rule('C05.R7', 'error sinks record or fail loudly; add_error arity agrees across current-node classes', r7_sinks_do_not_swallow, floor=8),
-    Rule('C05.R8', 'shared with C04.R1: the received-set count the acknowledgement reports is the reader\'s, counted unconditionally', r8_shared_reader_counts, floor=50),
+    Rule('C05.R1', 'verdict True only through valid and error-count-zero edges; other exits False', r1_verdict, floor=3),
+    Rule('C05.R2', 'sibling "has errors" deciders consult every stored evidence field', r2_evidence, floor=6),
+    Rule('C05.R3', 'reader error tags/arity = error-handler dispatch', r3_tags, floor=3),
+    Rule('C05.R4', 'acknowledgement code tuples vs the 997/999 maps and the codes actually reported', r4_code_tables, floor=7),
+    Rule('C05.R5', 'every error-tree node visited; both visitors implement every hook', r5_visitors, floor=9),
+    Rule('C05.R6', 'AK9 totals wiring and 997/999 sibling agreement', r6_totals, floor=9),
+    Rule('C05.R7', 'error sinks record or fail loudly; add_error arity agrees across current-node classes', r7_sinks_do_not_swallow, floor=6),
+    Rule('C05.R8', 'shared with C04.R1: the received-set count the acknowledgement reports is the reader\'s, counted unconditionally', r8_shared_reader_counts, floor=37),
 ]
